@@ -157,9 +157,18 @@ class Order:
         return [b for b in body.reachable() if self.matches(body, b, m)]
 
     def body(self, bid):
+        """the anchored function, with its private helpers virtually inlined (so that moving part of its body into
+        a new private function does not hide the construct from the rules)."""
         if bid not in self.P.bodies:
             raise AnchorMissing("anchor function not found: %s" % bid)
-        return self.P.bodies[bid]
+        done = self.__dict__.setdefault("_inlined", {})
+        if bid not in done:
+            from program import inline_helpers
+            B, which = inline_helpers(self.P, bid)
+            if which and self.L is not None:
+                self.L._held(B)
+            done[bid] = B
+        return done[bid]
 
     def need_sites(self, body, m, floor=1):
         s = self.sites(body, m)
@@ -506,7 +515,7 @@ class Order:
         if p is None:
             return None
         l = p["l"]
-        if l in self.L.owned.get(body.id, {}):
+        if l in self.L.owned.get(getattr(body, "hkey", body.id), {}):
             return l
         for d in body.defs().get(l, []):
             if d[0] == "assign":
